@@ -698,5 +698,105 @@ func genData(rng *rand.Rand, tier string, emit func(string)) {
 	}
 	for i := 0; i < n; i++ {
 		g.session(tier, i)
+		if (tier != "thorough" && i == 2) || (tier == "thorough" && i%150 == 2) {
+			g.bigSession(i)
+		}
 	}
+}
+
+// bigSession: collections above rockredis.RangeDeleteNum (5000) elements, so that trims, range removals and clears
+// take the DeleteRange branches instead of the per-element loops; a sibling collection whose key contains the
+// separator sits next to each (`t:a` and `t:t:a`). inv / dump after every step.
+func (g *dgen) bigSession(idx int) {
+	eng := "mem"
+	if g.p(0.3) {
+		eng = "pebble"
+	}
+	pol := "local" // the range-delete branches of the clear operations run under the local-deletion layout
+	if g.p(0.3) {
+		pol = "compact"
+	}
+	g.emit(fmt.Sprintf("open engine=%s policy=%s now=%d sh=b", eng, pol, dataNowFixed))
+	ts := int64(1600000000000000000) + g.rng.Int63n(1e9)
+	w := func(args ...string) {
+		ts += 1 + g.rng.Int63n(1e6)
+		g.emit(fmt.Sprintf("w %d 1 %s", ts, hexArgs(args)))
+		g.emit("inv")
+	}
+	many := func(prefix string, from, to int) []string {
+		out := make([]string, 0, to-from)
+		for i := from; i < to; i++ {
+			out = append(out, fmt.Sprintf("%s%05d", prefix, i))
+		}
+		return out
+	}
+	total := 5200 + g.rng.Intn(900)
+	k, sib := dataNS+":t:a", dataNS+":t:t:a"
+	// list
+	w(append([]string{"rpush", sib}, "x", "y", "z")...)
+	w(append([]string{"rpush", k}, many("e", 0, 3000)...)...)
+	w(append([]string{"rpush", k}, many("e", 3000, total)...)...)
+	k2 := dataNS + ":t:b"
+	w(append([]string{"rpush", k2}, many("e", 0, 3000)...)...)
+	w(append([]string{"rpush", k2}, many("e", 3000, total)...)...)
+	w("ltrim", k, "7", fmt.Sprint(total-8))                      // a few from both ends: the per-element loops
+	w("ltrim", k, "0", fmt.Sprint(1+g.rng.Intn(20)))             // > 5000 from the tail: the range-delete branch
+	w("ltrim", k2, fmt.Sprint(total-1-g.rng.Intn(20)), "-1")     // > 5000 from the head: the range-delete branch
+	g.emit("r " + hexArgs([]string{"lrange", k2, "0", "-1"}))
+	g.emit("r " + hexArgs([]string{"lrange", k, "0", "-1"}))
+	g.emit("r " + hexArgs([]string{"lindex", k, "-1"}))
+	w("lclear", k)
+	// zset
+	pairs := func(from, to int) []string {
+		var out []string
+		for i := from; i < to; i++ {
+			out = append(out, fmt.Sprint(i%50), fmt.Sprintf("m%05d", i))
+		}
+		return out
+	}
+	w(append([]string{"zadd", sib}, "1", "a", "2", "b")...)
+	w(append([]string{"zadd", k}, pairs(0, 2500)...)...)
+	w(append([]string{"zadd", k}, pairs(2500, 5000)...)...)
+	w(append([]string{"zadd", k}, pairs(5000, total)...)...)
+	switch g.rng.Intn(3) {
+	case 0:
+		w("zremrangebyrank", k, "3", fmt.Sprint(total-4))
+	case 1:
+		w("zremrangebyscore", k, "1", "48")
+	default:
+		w("zremrangebylex", k, "[m00010", "(m"+fmt.Sprintf("%05d", total-10))
+	}
+	w(append([]string{"zadd", k}, pairs(0, 5100)...)...)
+	w("zclear", k)
+	w("zadd", k, "7", "m00003") // re-add a former member
+	g.emit("r " + hexArgs([]string{"zscore", sib, "a"}))
+	// hash and set
+	fv := func(from, to int) []string {
+		var out []string
+		for i := from; i < to; i++ {
+			out = append(out, fmt.Sprintf("f%05d", i), "v")
+		}
+		return out
+	}
+	w("hset", sib, "f", "1")
+	w(append([]string{"hmset", k}, fv(0, 2600)...)...)
+	w(append([]string{"hmset", k}, fv(2600, 5200)...)...)
+	w("hclear", k)
+	w("hset", k, "f00001", "again")
+	w("sadd", sib, "m")
+	w(append([]string{"sadd", k}, many("s", 0, 4000)...)...)
+	w(append([]string{"sadd", k}, many("s", 4000, 5300)...)...)
+	w("sclear", k)
+	w("sadd", k, "s00001")
+	// a value above the 8 MiB limit in a NON-first position: the command fails after earlier fields went into the
+	// shared write batch; nothing of it may surface with the next committed write
+	huge := strings.Repeat("x", 8*1024*1024+1)
+	k3 := dataNS + ":t:c"
+	w("hmset", k3, "f1", "v1", "f2", huge)
+	w("hset", k3, "g", "1")
+	w("hmset", k3, "f3", "v3", "f4", huge, "f5", "v5")
+	w("set", dataNS+":t:kv", "after")
+	g.emit("r " + hexArgs([]string{"hgetall", k3}))
+	g.emit("dump")
+	g.emit("end")
 }
